@@ -1,8 +1,8 @@
 package main
 
 import (
-	"regexp"
 	"fmt"
+	"regexp"
 
 	"golang.org/x/tools/go/ssa"
 )
@@ -143,38 +143,49 @@ func ruleNoPositiveAfterShortCopy(c *Ctx) {
 	R.Rule("R-no-positive-after-short-copy", "E3+E4", "after the chunk copy, a reply that may be positive (a 2xx constant, or a computed status whose error operand is not known to be non-nil) is sent only where the copy returned no error and delivered the declared number of octets", 3)
 	for _, cp := range c.Sites("copy-to:Conn.bdatPipe") {
 		f := cp.Parent()
-		reach := map[*ssa.BasicBlock]bool{}
-		var walk func(b *ssa.BasicBlock)
-		walk = func(b *ssa.BasicBlock) {
-			for _, s := range b.Succs {
-				if !reach[s] {
-					reach[s] = true
-					walk(s)
-				}
-			}
-		}
-		walk(cp.Block())
-		allInstrs(f, func(in ssa.Instruction) {
-			ls := c.stdLabels(in)
-			if !labelHas(ls, "reply") {
-				return
-			}
-			after := reach[in.Block()]
-			if in.Block() == cp.Block() && !after {
+		reach := reachableFrom(cp.Block(), nil)
+		after := func(in ssa.Instruction) bool {
+			if in.Block() == cp.Block() {
+				seenCp := false
 				for _, x := range in.Block().Instrs {
 					if x == cp {
-						after = true
+						seenCp = true
 					}
 					if x == in {
-						break
+						return seenCp || loopsBack(cp.Block())
 					}
 				}
-				if !after {
-					return
-				}
-			} else if !after {
+			}
+			return reach[in.Block()]
+		}
+		// reply sites after the copy: in the handler itself, and in helpers of the handler called after the copy
+		var sites []ssa.Instruction
+		helperSet := map[*ssa.Function]bool{}
+		for _, h := range c.withHelpers(f) {
+			helperSet[h] = true
+		}
+		allInstrs(f, func(in ssa.Instruction) {
+			if !after(in) {
 				return
 			}
+			if labelHas(c.stdLabels(in), "reply") && isStaticCall(in, "(*Conn).writeResponse") {
+				sites = append(sites, in)
+				return
+			}
+			if cc := callCommon(in); cc != nil {
+				if h := staticCallee(cc); h != nil && h != f && helperSet[h] {
+					for _, g := range c.withHelpers(h) {
+						allInstrs(g, func(x ssa.Instruction) {
+							if labelHas(c.stdLabels(x), "reply") && isStaticCall(x, "(*Conn).writeResponse") {
+								sites = append(sites, x)
+							}
+						})
+					}
+				}
+			}
+		})
+		for _, in := range sites {
+			ls := c.stdLabels(in)
 			positive, why := false, ""
 			switch {
 			case labelHas(ls, "reply:2xx"):
@@ -198,15 +209,25 @@ func ruleNoPositiveAfterShortCopy(c *Ctx) {
 			}
 			if !positive {
 				c.R.Ob(c.siteKey(in, "reply after the copy cannot be positive"), c.P.InstrPos(in), true, "")
-				return
+				continue
 			}
-			okE, _ := c.factMatch(in, `^io\.Copy(N)?\(Conn\.bdatPipe,.*\)#1 == nil$`)
-			okN, _ := c.factMatch(in, `^io\.Copy\(Conn\.bdatPipe,.*\)#0 (==|>=) strconv\.ParseUint\(.*\)#0$`)
-			okCopyN, _ := c.factMatch(in, `^io\.CopyN\(Conn\.bdatPipe,.*\)#1 == nil$`)
+			okE, _ := c.factMatch(in, `^io\.Copy(N)?\(Conn\.bdatPipe,.*\)#1 == nil`)
+			okN, _ := c.factMatch(in, `^io\.Copy\(Conn\.bdatPipe,.*\)#0 (==|>=) strconv\.ParseUint\(.*\)#0`)
+			okCopyN, _ := c.factMatch(in, `^io\.CopyN\(Conn\.bdatPipe,.*\)#1 == nil`)
 			R.Ob(c.siteKey(in, "possibly positive reply only after a complete chunk"), c.P.InstrPos(in), okE && (okN || okCopyN),
 				"reply ("+why+") is sent on a path where the chunk copy may have failed or delivered fewer octets than declared: a truncated transfer is answered positively")
-		})
+		}
 	}
+}
+
+// loopsBack: the block can reach itself.
+func loopsBack(b *ssa.BasicBlock) bool {
+	for _, s := range b.Succs {
+		if reachableFrom(s, nil)[b] {
+			return true
+		}
+	}
+	return false
 }
 
 func runC07(c *Ctx) {
